@@ -190,7 +190,7 @@ Fixpoint cut_builds (l : list xev) : list xev :=
   end.
 Definition norm_trace (o : xop) (l : list xev) : list xev :=
   match o with
-  | XRollback _ | XUninstall _ => drop_builds l
+  | XRollback _ | XUninstall _ | XCmd _ CRollback _ _ _ | XCmd _ CUninstall _ _ _ => drop_builds l
   | _ => cut_builds l
   end.
 
